@@ -63,6 +63,19 @@ func c18String(r *rand.Rand) string {
 	}
 	n := r.Intn(10)
 	var b strings.Builder
+	if r.Intn(12) == 0 {
+		// long strings: plain text of 40-200 bytes with characters that need an escape dropped in at any offset (a writer
+		// that fills a buffer meets them at its boundaries)
+		m := 40 + r.Intn(160)
+		for b.Len() < m {
+			if r.Intn(12) == 0 {
+				b.WriteRune([]rune{0x1b, 0x01, 0x1f, '"', '\\', '\n', 0x7f, 0x2028, 0x1F600, 0xe9}[r.Intn(10)])
+			} else {
+				b.WriteByte(byte('a' + r.Intn(26)))
+			}
+		}
+		return b.String()
+	}
 	for i := 0; i < n; i++ {
 		if r.Intn(3) == 0 {
 			// any valid rune (excluding NUL: ggql's scanner uses 0 as end marker; NUL is
